@@ -631,10 +631,11 @@ class BaseTrigger(ABC):
                 continue
             for vc_id in context.valid_conditions.keys():
                 condition_to_pending_triggers[vc_id].discard(trigger.trigger_id)
-            if trigger.logic == CompositeLogic.AND:
+            if trigger.logic == CompositeLogic.AND and len(trigger.condition_ids) > 1:
                 run_contexts = [context]
             else:
-                # OR logic: every valid condition is an occurrence of its own, so its
+                # OR logic, or a single condition (where AND, the default, means the same):
+                # every valid condition is an occurrence of its own, so its
                 # run id and its arguments must come from that occurrence alone
                 run_contexts = [
                     TriggerContext(valid_conditions={vc_id: valid_condition})
